@@ -61,6 +61,20 @@ def scenario_for(seed, index, tier):
     rng = make_rng('scenario', ID, seed, index)
     sup = common.supported()
     proto = common.pick_proto(rng, sup)
+    if rng.random() < 0.06:
+        # listeners registered while the session is running - by a listener
+        # on the networking thread and by a user thread at the same time,
+        # into the same class; every one of them must see the next packet
+        return {
+            'kind': 'concurrent-registration', 'proto': proto,
+            'n': rng.choice([3, 8, 20]), 'early': rng.random() < 0.5,
+            'server': {'conns': [{'login': [['success']],
+                                  'play': [['ka', 1]]}]},
+            'net': {'latency_us': rng.choice([50, 500])},
+            'sched': {'granularity': 'line', 'max_steps': 400000},
+            'listeners': [], 'history': [], 'writes': [], 'login': [],
+            'rand_seed': rng.randrange(2**32),
+        }
     ids = ids_for(proto)
     listeners = []
     for i in range(rng.randint(0, 10)):
@@ -188,6 +202,12 @@ def finish(sc):
 
 
 def policy(rng, scenario):
+    if scenario.get('kind') == 'concurrent-registration':
+        if rng.random() < 0.5:
+            d = rng.choice([2, 3, 5])
+            return Policy(pct_depth=d, pct_len=rng.choice([200, 800, 3000]),
+                          name='c13-reg-pct%d' % d)
+        return Policy(p_sched=rng.choice([0.05, 0.2, 0.5]), name='c13-reg')
     if scenario.get('kick'):
         return Policy(p_sched=rng.choice([0, 0.01]),
                       p_event=rng.choice([0, 0.1, 0.3]), p_seg=0.3,
@@ -329,7 +349,103 @@ def reference(sc):
             'compression_reacted': compression_reacted}
 
 
+def execute_registration(scenario, tape):
+    w = World(scenario, tape)
+    st = {'errs': [], 'calls': [], 'in_play': False, 'net_done': False,
+          'user_done': False}
+    n = scenario['n']
+
+    def build(w):
+        from minecraft.networking.connection import Connection
+        from minecraft.networking.packets import clientbound as cb
+        conn = Connection('sim.example', 25565, username='registrar',
+                          allowed_versions=[scenario['proto']],
+                          handle_exception=lambda e, i: (
+                              [] if st.get('closing') else
+                              st['errs']).append(e))
+
+        def late(tag):
+            def cb_(p):
+                st['calls'].append(tag)
+            return cb_
+
+        def on_ka(p):
+            if st['net_done']:
+                return
+            for i in range(n):
+                conn.register_packet_listener(
+                    late(('net', i)), cb.play.ChatMessagePacket,
+                    early=scenario['early'])
+            st['net_done'] = True
+        conn.register_packet_listener(on_ka, cb.play.KeepAlivePacket)
+        conn.register_packet_listener(
+            lambda p: st.__setitem__('in_play', True),
+            cb.login.LoginSuccessPacket)
+
+        def user():
+            st['connect'] = w.api('connect', conn.connect)
+            w.wait_until(lambda: st['in_play'] or st['errs'], 30000000)
+            for i in range(n):
+                conn.register_packet_listener(
+                    late(('user', i)), cb.play.ChatMessagePacket,
+                    early=scenario['early'])
+            st['user_done'] = True
+            w.wait_until(lambda: st['net_done'] or st['errs'], 30000000)
+            app = w.server.apps[0]
+            w.sim.after(0, lambda: w.server.inject(
+                app, ['chat', '{"text":"probe"}', 0, UUID0]), 'probe')
+            w.wait_until(lambda: len(st['calls']) >= 2 * n or st['errs'],
+                         budget=20000)
+            # (the networking thread may report its own EOF / closed-file
+            # error when another thread disconnects: not our subject)
+            st['closing'] = True
+            w.api('disconnect', conn.disconnect)
+            st['quiet'] = w.wait_until(
+                lambda: common.all_net_done(w.sim), 10000000)
+        w.sim.spawn(user, 'user0')
+
+    w.run(build)
+    res = common.result_from_world(w)
+    V = res.violations
+    res.summary = {'kind': scenario['kind'], 'proto': scenario['proto'],
+                   'n': n, 'early': scenario['early'],
+                   'end': w.sim.end_state}
+    res.nontrivial = bool(w.sim.stats.get('preempt'))
+    res.state_sigs = [('registration', n, scenario['early'])]
+    res.obligations += 3
+    if w.sim.end_state == 'inconclusive':
+        return res
+    if w.sim.end_state != 'done':
+        V.append(('C13/%s:concurrent-registration' % w.sim.end_state,
+                  repr(w.sim.end_detail)))
+        return res
+    if st['errs']:
+        V.append(('C13/error-reported:%s' % type(st['errs'][0]).__name__,
+                  str(st['errs'][0])[:120]))
+        return res
+    calls = st['calls']
+    missing = [(who, i) for who in ('net', 'user') for i in range(n)
+               if calls.count((who, i)) == 0]
+    dup = sorted(set(c for c in calls if calls.count(c) > 1))
+    if missing:
+        V.append(('C13/registered-listener-never-called',
+                  {'missing': missing[:4], 'n_missing': len(missing)}))
+    elif dup:
+        V.append(('C13/registered-listener-called-twice', dup[:4]))
+    else:
+        for who in ('net', 'user'):
+            seq = [i for w_, i in calls if w_ == who]
+            if seq != sorted(seq):
+                V.append(('C13/registration-order-not-kept',
+                          {'by': who, 'order': seq[:10]}))
+                break
+    res.probes['listeners-registered-concurrently'] = 1
+    return res
+
+
 def execute(scenario, tape):
+    if scenario.get('kind') == 'concurrent-registration':
+        return execute_registration(scenario, tape)
     w = World(scenario, tape)
     st = {'errs': [], 'exits': [], 'calls': [], 'in_play': False}
     ids = ids_for(scenario['proto'])
@@ -718,6 +834,12 @@ def check(scenario, w, st, res, ids):
 
 
 def shrink_scenario(sc):
+    if sc.get('kind') == 'concurrent-registration':
+        if sc['n'] > 3:
+            c = copy.deepcopy(sc)
+            c['n'] = max(sc['n'] // 2, 2)
+            yield c
+        return
     if sc['net'].get('segment'):
         c = copy.deepcopy(sc)
         c['net']['segment'] = False
